@@ -298,6 +298,13 @@ func runC14(res *Result, rng *RNG, tier string, outDir string) {
 		{"PCheck", `check if 1 < 2 < 3`, "chained-comparison"},
 		{"PCheck", `check if 1 < 2 == true`, "chained-comparison"},
 		{"PCheck", `check if a($x), $x == 1 == 2`, "chained-comparison"},
+		{"PCheck", `check if (1 < 2 < 3)`, "chained-comparison-nested"},
+		{"PCheck", `check if !(1 < 2 < 3)`, "chained-comparison-nested"},
+		{"PCheck", `check if a($x), (0 < $x < 10) || false`, "chained-comparison-nested"},
+		{"PCheck", `check if [true].contains(0 < 1 < 10)`, "chained-comparison-nested"},
+		{"PCheck", `check if ((1 < 2) == true == true)`, "chained-comparison-nested"},
+		{"PRule", `r($x) <- a($x), (0 < $x < 10)`, "chained-comparison-nested"},
+		{"PRule", `r($x) <- a($x), !($x == 1 == 2)`, "chained-comparison-nested"},
 		{"PCheck", `check if !!true`, "double-negation"},
 		{"PFact", `right(hex:abc)`, "malformed-hex"},
 		{"PCheck", `check if hex:0g == hex:00`, "malformed-hex"},
@@ -405,6 +412,54 @@ func runC14(res *Result, rng *RNG, tier string, outDir string) {
 				obs = "PXErr"
 			}
 			addCase(b.kind, b.text, pv, obs)
+		}
+	}
+	// (2c) comparisons do not chain, at ANY nesting depth: random checks and rules of the grammar in which one
+	// comparison — wherever the generator happens to be when it makes it: at the top, inside parentheses, under
+	// '!', in a method argument — gets a second comparison tail.  Every one of them must be rejected.
+	{
+		nchain := n / 4
+		if nchain < 40 {
+			nchain = 40
+		}
+		made := 0
+		for try := 0; try < nchain*30 && made < nchain; try++ {
+			r := rng.Fork()
+			g := &txtGen{rng: r, params: map[string]STerm{"p1": aInt(1)}, chainBudget: 1}
+			var text, kind string
+			if r.Bool() {
+				text, _ = g.check()
+				kind = "PCheck"
+			} else {
+				text, _ = g.rule()
+				kind = "PRule"
+			}
+			if !g.chained {
+				continue
+			}
+			made++
+			var err error
+			pan := usable(func() {
+				if kind == "PCheck" {
+					_, err = parser.FromStringCheckWithParams(text, paramsToGo(g.params))
+				} else {
+					_, err = parser.FromStringRuleWithParams(text, paramsToGo(g.params))
+				}
+			})
+			res.Count(text, true)
+			res.Dist("error-class:chained-comparison-generated")
+			rep := map[string]interface{}{"text": text, "class": "chained-comparison (generated, any depth)"}
+			if pan != "" {
+				res.Violate("panic:parse", "parsing panicked: "+pan, rep)
+				continue
+			}
+			if err == nil {
+				res.Violate("error-not-reported:chained-comparison", "a text with a chained comparison (not in the documented grammar) parses without error", rep)
+				continue
+			}
+			if isModelText(text) {
+				addCase(kind, text, g.params, "PXErr")
+			}
 		}
 	}
 	// (3) robustness: corruptions and arbitrary strings
